@@ -175,8 +175,8 @@ def _exhaustive():
                     continue
                 for b in EXH_BASES:
                     k += 1
-                    yield {"base": b, "ref1": p, "as_url1": bool(k & 1), "ref2": r2s[k % len(r2s)],
-                           "as_url2": bool(k & 2), "unrooted": k % 5 == 0}
+                    yield {"base": b, "ref1": p, "as_url1": k % 3, "ref2": r2s[k % len(r2s)],
+                           "as_url2": (k // 3) % 3, "unrooted": k % 5 == 0}
 
 
 def generate(rng, tier, n):
@@ -184,8 +184,8 @@ def generate(rng, tier, n):
         for c in _exhaustive():
             yield c
     for _ in range(n):
-        yield {"base": _base(rng), "ref1": _ref(rng), "as_url1": rng.random() < 0.5,
-               "ref2": _ref(rng), "as_url2": rng.random() < 0.5, "unrooted": rng.random() < 0.15}
+        yield {"base": _base(rng), "ref1": _ref(rng), "as_url1": rng.choice([0, 0, 1, 1, 2]),
+               "ref2": _ref(rng), "as_url2": rng.choice([0, 0, 1, 1, 2]), "unrooted": rng.random() < 0.15}
 
 
 def search(rng, tier, n, broken):
@@ -212,10 +212,10 @@ def run_impl(case):
                                   query_params=base.query_params, fragment=base.fragment, port=base.port,
                                   username=base.username, password=base.password)
     before = base.to_text()
-    r1 = URL(case["ref1"]) if case["as_url1"] else case["ref1"]
+    r1 = _as_arg(URL, case["ref1"], case["as_url1"])
     n1 = base.navigate(r1)
     nav1 = n1.to_text()
-    r2 = URL(case["ref2"]) if case["as_url2"] else case["ref2"]
+    r2 = _as_arg(URL, case["ref2"], case["as_url2"])
     n2 = n1.navigate(r2)
     nav2 = n2.to_text()
     # independence: mutate everything reachable from the second result, re-read the first ...
@@ -236,6 +236,20 @@ def run_impl(case):
     nr2 = ur.to_text()
     return {"before": before, "nav1": nav1, "nav1_again": nav1_again, "after": after, "nav2": nav2,
             "nb1": nb1, "nb2": nb2, "nr1": nr1, "nr2": nr2}
+
+
+def _as_arg(URL, text, mode):
+    """how the destination is handed to navigate(): 0/False the text, 1/True URL(text),
+    2 a URL object assembled with from_parts from the parsed fields (its raw _query etc. are
+    those of an empty URL: only the public attributes carry the data)."""
+    if not mode:
+        return text
+    u = URL(text)
+    if int(mode) == 2:
+        return URL.from_parts(scheme=u.scheme, host=u.host, path_parts=tuple(u.path_parts),
+                              query_params=u.query_params, fragment=u.fragment, port=u.port,
+                              username=u.username, password=u.password)
+    return u
 
 
 def _mutate(u):
@@ -262,8 +276,8 @@ FIELDS = ["before", "nav1", "nav1_again", "after", "nav2", "nb1", "nb2", "nr1", 
 
 def to_coq(case, obs):
     return "mkCase %s %s %s %s %s %s (mkObs %s)" % (
-        _codes(case["base"]), cbool(bool(case.get("unrooted"))), _codes(case["ref1"]), cbool(case["as_url1"]),
-        _codes(case["ref2"]), cbool(case["as_url2"]),
+        _codes(case["base"]), cbool(bool(case.get("unrooted"))), _codes(case["ref1"]), cbool(bool(case["as_url1"])),
+        _codes(case["ref2"]), cbool(bool(case["as_url2"])),
         " ".join(_codes(obs[k]) for k in FIELDS))
 
 
@@ -314,7 +328,7 @@ def _bump(d, key, sub):
 def distribution(d, case, obs):
     _bump(d, "ref1_kind", _kind(case["ref1"]))
     _bump(d, "ref2_kind", _kind(case["ref2"]))
-    _bump(d, "ref1_passed_as", "URL" if case["as_url1"] else "str")
+    _bump(d, "ref1_passed_as", ["str", "URL(text)", "URL.from_parts(fields)"][int(case["as_url1"])])
     _bump(d, "base_built_by", "from_parts(unrooted path_parts)" if case.get("unrooted") else "URL(text)")
     b = case["base"]
     bp = b.split('#')[0].split('?')[0].split('://', 1)[1].partition('/')
@@ -365,7 +379,7 @@ def shrink(case):
             if len(segs) > 1:
                 yield dict(case, **{key: pre + '/'.join(segs[:i] + segs[i + 1:]) + sepq + tailq})
     if case["as_url1"] or case["as_url2"]:
-        yield dict(case, as_url1=False, as_url2=False)
+        yield dict(case, as_url1=0, as_url2=0)
 
 
 # --------------------------------------------------------------------------
